@@ -245,11 +245,12 @@ theorem spendable_spec (s : State) (u : Utxo) :
 /-! ### the signed result is accepted -/
 
 /-- **funded_accepted.** Right after a successful Fund call (before the chain or the pool change)
-every input of the funded transaction passes the pool's test: unspent in the pool and either a
+every input of the funded transaction passes the pool's test (the store may lag behind the
+manager, never lead it): unspent in the pool and either a
 confirmed output spendable in the next block or an output of a pooled transaction of its version. -/
 theorem funded_accepted (S : Sorter) (s : State) (h : Nat) (v2 : Bool) (amount : Nat) (uc : Bool) (inputs : Nat)
     (pre : List (Nat × Bool)) (ins : List Utxo) (sum change : Nat)
-    (hord : PoolOrdered (s.poolV1 ++ s.poolV2))
+    (hord : PoolOrdered (s.poolV1 ++ s.poolV2)) (hlag : s.height ≤ s.cmHeight)
     (hf : (s.fund S h v2 amount uc inputs pre).2 = .ok ins sum change) :
     (s.fund S h v2 amount uc inputs pre).1.accepts v2 (ins.map (·.id)) = true := by
   have hsel : amount = 0 ∧ ins = [] ∨ s.selectUTXOs S amount inputs uc v2 = some ins := by
@@ -259,7 +260,7 @@ theorem funded_accepted (S : Sorter) (s : State) (h : Nat) (v2 : Bool) (amount :
     · split at hf
       · cases hf
       · rename_i sel hsel; simp only [FundOut.ok.injEq] at hf; right; rw [hsel, hf.1]
-  have hacc : ∀ st : State, st.utxos = s.utxos → st.height = s.height → st.poolV1 = s.poolV1 → st.poolV2 = s.poolV2 →
+  have hacc : ∀ st : State, st.utxos = s.utxos → st.cmHeight = s.cmHeight → st.poolV1 = s.poolV1 → st.poolV2 = s.poolV2 →
       st.accepts v2 (ins.map (·.id)) = true := by
     intro st h1 h2 h3 h4
     rcases hsel with ⟨_, rfl⟩ | hsel
@@ -291,7 +292,7 @@ theorem funded_accepted (S : Sorter) (s : State) (h : Nat) (v2 : Bool) (amount :
 
 private def cfg0 : Cfg := ⟨1, 10, 10, 100, 0, 48, 2⟩
 private def s0 : State :=
-  { State.init cfg0 with utxos := [⟨1, 300, 3⟩, ⟨2, 200, 4⟩, ⟨3, 100, 5⟩, ⟨4, 50, 20⟩], height := 8, nextId := 5 }
+  { State.init cfg0 with utxos := [⟨1, 300, 3⟩, ⟨2, 200, 4⟩, ⟨3, 100, 5⟩, ⟨4, 50, 20⟩], height := 8, cmHeight := 8, nextId := 5 }
 
 /-- funding 250 takes the largest output and defrags the two others; the immature one is left -/
 example : (s0.selectUTXOs stdSorter 250 0 false true) = some [⟨1, 300, 3⟩, ⟨3, 100, 5⟩, ⟨2, 200, 4⟩] := by decide
